@@ -48,18 +48,23 @@ impl Minimizer {
         if plan.threads.iter().all(|t| t.is_empty()) && plan.sentinel.is_empty() {
             return None;
         }
-        match run_and_check(plan, &mut self.refs) {
-            Ok((out, res)) => {
-                if res.harness_error.is_some() {
-                    return None;
+        // a fresh address space is the one thing the plan does not determine: the kernel
+        // draws it, so a candidate that depends on it gets several attempts
+        let tries = if plan.fresh_exec { 6 } else { 1 };
+        for _ in 0..tries {
+            match run_and_check(plan, &mut self.refs) {
+                Ok((out, res)) => {
+                    if res.harness_error.is_some() {
+                        return None;
+                    }
+                    if let Some(v) = res.violations.into_iter().find(|v| matches(self, v)) {
+                        return Some((v, out.schedule));
+                    }
                 }
-                res.violations
-                    .into_iter()
-                    .find(|v| matches(self, v))
-                    .map(|v| (v, out.schedule))
+                Err(_) => return None,
             }
-            Err(_) => None,
         }
+        None
     }
 
     fn try_accept(&mut self, cur: &mut Plan, cand: Plan) -> bool {
@@ -201,6 +206,11 @@ impl Minimizer {
     }
 
     fn pass_faults(&mut self, cur: &mut Plan) {
+        if cur.fresh_exec {
+            let mut c = cur.clone();
+            c.fresh_exec = false;
+            self.try_accept(cur, c);
+        }
         if cur.env_before.is_some() {
             let mut c = cur.clone();
             c.env_before = None;
